@@ -313,6 +313,7 @@ pub fn replay_layer(case: &Value, rep: &mut Report) {
 
     // ---- backward (C01): gradients and their shapes (C08) ----
     let Some((pre, _post, max)) = observed else { return };
+    let mut spatial_ok = false;
     for (repr, input, grad) in [("spatial", &x, &g), ("flat", &xflat, &Tensor::single(flat(&g)))] {
         if kind == "dense" && repr == "flat" {
             continue;
@@ -320,6 +321,9 @@ pub fn replay_layer(case: &Value, rep: &mut Report) {
         rep.checks += 1;
         match guarded(|| layer.backward(grad, input, &pre, &max)) {
             Err(e) => {
+                if repr == "flat" && spatial_ok {
+                    rep.mismatch("C08", &format!("flat_representation_changes_the_gradient:{}", kind), &id, json!({"panic": e}), case);
+                }
                 c01(rep, case, &id, &format!("backward_panic:{}", kind), json!({"panic": e, "input": repr, "kind": kind}), forward_ok);
             }
             Ok((dx, dw, db)) => {
@@ -341,6 +345,14 @@ pub fn replay_layer(case: &Value, rep: &mut Report) {
                         }
                         None => diffs.push("bias gradient missing".to_string()),
                     }
+                }
+                if repr == "spatial" && diffs.is_empty() {
+                    spatial_ok = true;
+                }
+                // C08, flat <-> spatial transitions on the backward path: the same input and gradient handed over as flat
+                // row-major vectors must give the gradients the spatial representation gives
+                if repr == "flat" && spatial_ok && !diffs.is_empty() {
+                    rep.mismatch("C08", &format!("flat_representation_changes_the_gradient:{}", kind), &id, json!({"diffs": diffs}), case);
                 }
                 if !diffs.is_empty() {
                     let shape_problem = diffs.iter().any(|d| d.contains("dimensions") || d.contains("recorded shape"));
